@@ -127,12 +127,18 @@ impl Check for C04 {
         }
         let mut cfg = TypeCfg::default();
         cfg.odd_labels = e.ratio(1, 6);
-        let (env, sc) = gen_env(&mut e, &cfg);
-        let t = gen_ty(&mut e, &sc, cfg.max_depth, &cfg);
+        let (mut env, sc) = gen_env(&mut e, &cfg);
+        let mut t = gen_ty(&mut e, &sc, cfg.max_depth, &cfg);
         let chain = e.ratio(1, 3);
         let mut t2 = t.clone();
         let fresh = e.ratio(1, 8);
-        if fresh {
+        let primed = !env.defs.is_empty() && e.ratio(1, 6);
+        if primed {
+            // old/new copies of the environment with one edit: the checker probes below opt
+            let (a, b) = crate::checks::c05::primed_pair(&mut e, &mut env, &sc, &cfg);
+            t = a;
+            t2 = b;
+        } else if fresh {
             t2 = gen_ty(&mut e, &sc, 2, &cfg);
         } else {
             for _ in 0..e.range(1, 4) {
@@ -169,7 +175,7 @@ impl Check for C04 {
         if !vg.inhabited(r) {
             return Outcome::Skip("uninhabited-subtype");
         }
-        ctx.class(if fresh { "independent-pair" } else { "upgrade-steps" });
+        ctx.class(if primed { "old-new-environment-pair" } else if fresh { "independent-pair" } else { "upgrade-steps" });
         let describe = |v: &RVal| {
             format!(
                 "env:\n{}t   = {}\nt'  = {}\nt'' = {}\nv = {}",
